@@ -21,10 +21,11 @@ def decIn (ts : List String) : Option (In × List String) := do
   let (parseErr, ts) ← (dec ts : Option (Bool × _))
   let (id, ts) ← (dec ts : Option (String × _))
   let (stored, ts) ← (dec ts : Option (Option Rec × _))
+  let (storedErr, ts) ← (dec ts : Option (String × _))
   let (entity, ts) ← (dec ts : Option (Option String × _))
   let (userinfo, ts) ← (dec ts : Option (Option provider_Attributes × _))
   let (signOk, ts) ← (dec ts : Option (Bool × _))
-  pure ({ issuer, parseErr, id, stored, entity, userinfo, signOk, issueInstant := "t", untilInstant := "u",
+  pure ({ issuer, parseErr, id, stored, storedErr, entity, userinfo, signOk, issueInstant := "t", untilInstant := "u",
           ids := fun n => s!"id#{n}" }, ts)
 
 def showAttr : Option saml_AttributeType → List String
@@ -42,7 +43,7 @@ def showOut : Out → String
       | .xmlBody => ("xmlbody", "", "")
       | .postForm a r => ("post", a, r)
       | .redirect a r => ("redirect", a, r)
-    let head := [kind] ++ enc target ++ enc relay ++ [SsoDriver.statusShort m.status] ++ enc m.inResponseTo ++ enc m.destination ++ enc m.issuer ++ [showSig s]
+    let head := [kind] ++ enc target ++ enc relay ++ [SsoDriver.statusShort m.status] ++ enc m.inResponseTo ++ enc m.destination ++ enc m.issuer ++ [showSig s] ++ enc m.statusMessage
     let tail := match m.assertion with
       | none => ["A0"]
       | some a =>
